@@ -1014,6 +1014,31 @@ def _shared_tail_return(stmts):
     return out
 
 
+def _bare_return_guard(stmts):
+    """if c: <A>; return      <R>     ->   if c: <A>  else: <R>      (a `return` without value in front of the rest of the block)"""
+    out = list(stmts)
+    for i, s in enumerate(out):
+        # a branch that always leaves and leaves at least once by a plain `return`: what follows it is its else-branch
+        if isinstance(s, ast.If) and not s.orelse and out[i + 1:] and _exits(s.body) and not (isinstance(s.body[-1], ast.Return) and s.body[-1].value is None) \
+                and any(isinstance(n, ast.Return) and n.value is None for b in s.body for n in _walk_same_function(b)) \
+                and not any(isinstance(n, ast.Return) and n.value is not None for r in out for n in _walk_same_function(r)):
+            new = ast.If(test=s.test, body=canon_flow_list(s.body, False, True), orelse=canon_flow_list(out[i + 1:], False, True))
+            return out[:i] + [ast.fix_missing_locations(ast.copy_location(new, s))]
+        if isinstance(s, ast.If) and not s.orelse and s.body and isinstance(s.body[-1], ast.Return) and s.body[-1].value is None and out[i + 1:]:
+            rest = out[i + 1:]
+            if any(isinstance(n, ast.Return) and n.value is not None for r in rest for n in _walk_same_function(r)):
+                continue
+            body = s.body[:-1]
+            if not body:
+                new = ast.If(test=_negate(s.test), body=rest, orelse=[])
+            else:
+                new = ast.If(test=s.test, body=body, orelse=rest)
+                if isinstance(new.test, ast.UnaryOp) and isinstance(new.test.op, ast.Not):
+                    new = ast.If(test=new.test.operand, body=rest, orelse=body)
+            return out[:i] + [ast.fix_missing_locations(ast.copy_location(new, s))]
+    return out
+
+
 def _walk_loop_body(node):
     """nodes of a loop body that belong to this loop (nested loops keep their own break statements)"""
     yield node
@@ -1126,12 +1151,20 @@ def _flatten_bool(e):
 
 
 def _single_use_test_temp(stmts):
-    """t = <expr>; if t: ...  (t used nowhere else) -> if <expr>: ..."""
+    """t = <expr>; if t: ...  (t used nowhere else) -> if <expr>: ...; the same for a temporary of the inliner used once in the next simple statement"""
     out = []
     i = 0
     while i < len(stmts):
         s = stmts[i]
         nxt = stmts[i + 1] if i + 1 < len(stmts) else None
+        if isinstance(s, ast.Assign) and len(s.targets) == 1 and isinstance(s.targets[0], ast.Name) and s.targets[0].id.startswith("_inl") and isinstance(nxt, (ast.Assign, ast.Expr, ast.Return, ast.AugAssign)):
+            v = s.targets[0].id
+            uses = [n for n in ast.walk(nxt) if isinstance(n, ast.Name) and n.id == v and isinstance(n.ctx, ast.Load)]
+            elsewhere = [n for st in stmts[i + 2:] for n in ast.walk(st) if isinstance(n, ast.Name) and n.id == v]
+            if len(uses) == 1 and not elsewhere:
+                _replace_node(nxt, uses[0], s.value)
+                i += 1
+                continue
         if isinstance(s, ast.Assign) and len(s.targets) == 1 and isinstance(s.targets[0], ast.Name) and isinstance(nxt, ast.If):
             v = s.targets[0].id
             uses_in_test = [n for n in ast.walk(nxt.test) if isinstance(n, ast.Name) and n.id == v]
@@ -1150,7 +1183,7 @@ def _single_use_test_temp(stmts):
     return out
 
 
-def canon_flow_list(stmts, pattern=False):
+def canon_flow_list(stmts, pattern=False, tail=True):
     """guard-clause form: an `else` after a branch that always leaves the block is flattened; the leaving branch comes first;
     `if not c: A else: B` (neither leaving) becomes `if c: B else: A`; if/else assigning one target becomes a conditional expression"""
     out = []
@@ -1162,7 +1195,8 @@ def canon_flow_list(stmts, pattern=False):
         for f in ("body", "orelse", "finalbody"):
             v = getattr(s, f, None)
             if isinstance(v, list) and v and isinstance(v[0], ast.stmt) and not isinstance(s, (ast.FunctionDef, ast.AsyncFunctionDef, ast.ClassDef)):
-                setattr(s, f, canon_flow_list(v, pattern))
+                is_tail = tail and s is stmts[-1] and isinstance(s, ast.If)
+                setattr(s, f, canon_flow_list(v, pattern, tail=is_tail))
         # if A or B: <leave>  ->  if A: <leave>  if B: <leave>
         if isinstance(s, ast.If) and not s.orelse and not pattern and isinstance(s.test, ast.BoolOp) and isinstance(s.test.op, ast.Or) and _exits(s.body) and len(s.body) == 1 and isinstance(s.body[0], (ast.Continue, ast.Break, ast.Return)) and (not isinstance(s.body[0], ast.Return) or isinstance(s.body[0].value, (ast.Constant, type(None)))):
             for v in s.test.values:
@@ -1170,7 +1204,7 @@ def canon_flow_list(stmts, pattern=False):
             continue
         if isinstance(s, ast.Try):
             for h in s.handlers:
-                h.body = canon_flow_list(h.body, pattern)
+                h.body = canon_flow_list(h.body, pattern, tail=False)
         if isinstance(s, ast.If) and s.orelse:
             wild = pattern and (any(_is_wild(x) for x in s.body) or any(_is_wild(x) for x in s.orelse))
             if not wild:
@@ -1200,6 +1234,8 @@ def canon_flow_list(stmts, pattern=False):
     if not pattern:
         out = _sentinel_search(out)
         out = _shared_tail_return(out)
+        if tail:
+            out = _bare_return_guard(out)
     # a loop without `break`: its else-clause is simply what follows
     flat = []
     for s in out:
@@ -1257,7 +1293,17 @@ def unroll_const_loops(tree):
 
 
 class _Compare(ast.NodeTransformer):
-    """a < b < c  ->  a < b and b < c (when b is a plain name / constant / attribute: evaluated twice without effect)"""
+    """a < b < c  ->  a < b and b < c (when b is a plain name / constant / attribute: evaluated twice without effect);
+    [a] if c else [b]  ->  [a if c else b]"""
+
+    def visit_IfExp(self, node):
+        self.generic_visit(node)
+        a, b = node.body, node.orelse
+        if isinstance(a, (ast.List, ast.Tuple)) and type(a) is type(b) and len(a.elts) == 1 and len(b.elts) == 1:
+            inner = ast.IfExp(test=node.test, body=a.elts[0], orelse=b.elts[0])
+            new = type(a)(elts=[inner], ctx=ast.Load())
+            return ast.fix_missing_locations(ast.copy_location(new, node))
+        return node
 
     def visit_Compare(self, node):
         self.generic_visit(node)
